@@ -120,6 +120,13 @@ def gen_source(rng):
                             "vw \"sum($vf) + len($vf)\";", "vr \"round($va / 7, 3)\";", "vh \"$va / 2\";", "vmx \"max($vf) - min($vf)\";",
                             # expressions whose evaluation fails (division by zero, wrong operand types, domain errors)
                             "vzero 0;", "vdz \"1 / $vzero\";", "vty \"$vf / 2\";", "vdom \"sqrt(-$va - 1)\";"], rng.randint(1, 8))
+    if rng.random() < 0.15:
+        # long keys: key length + indentation around the writer's value column (29, 30, 31 characters), levels 0..3
+        lvl = rng.randint(0, 3)
+        inner = [{"i": "kv", "k": "k" * (n - 4 * lvl), "v": {"t": "bare", "w": str(n)}} for n in rng.sample([27, 28, 29, 30, 31, 32, 40], 3)]
+        for j in range(lvl, 0, -1):
+            inner = [{"i": "sub", "k": f"lv{j}", "items": inner}]
+        items = items + inner
     text = c12.render(rng, items)
     if exprs:
         text += ("\n" if not text.endswith("\n") else "") + "\n".join(exprs) + "\n"
